@@ -1,6 +1,6 @@
 use std::{
     alloc::Layout,
-    collections::{BTreeMap, BTreeSet},
+    collections::{BTreeMap, BTreeSet, HashSet},
     mem::size_of,
     ptr::NonNull,
 };
@@ -18,6 +18,8 @@ pub(crate) struct TxFreelist {
     pub(crate) inner: Freelist,
     pub(crate) pages: BTreeMap<u64, (NonNull<u8>, usize)>,
     pub(crate) arena: Bump,
+    // pages this transaction has already given back
+    freed: HashSet<PageID>,
 }
 
 impl<'a> TxFreelist {
@@ -27,13 +29,19 @@ impl<'a> TxFreelist {
             inner,
             pages: BTreeMap::new(),
             arena: Bump::new(),
+            freed: HashSet::new(),
         }
     }
 
     pub(crate) fn free(&mut self, page_id: PageID, num_pages: u64) {
         debug_assert!(num_pages > 0, "cannot free zero pages");
         for id in page_id..(page_id + num_pages) {
-            self.inner.free(self.meta.tx_id, id);
+            // A transaction gives a page back once, even if it reaches it twice: deleting a
+            // nested bucket and then one of its ancestors walks the nested bucket's committed
+            // pages a second time. A page listed twice would end up twice in the freelist.
+            if self.freed.insert(id) {
+                self.inner.free(self.meta.tx_id, id);
+            }
         }
     }
 
